@@ -598,6 +598,9 @@ def bounded_standin(pid, unit):
 
 
 def check(pid, tier, seed, rebaseline=False):
+    # one build directory per property: `./check C05` and `./check C06` may run side by side (both extract unit `dnf`)
+    global BUILD
+    BUILD = os.path.join(ROOT, "build", pid)
     t0 = time.time()
     units = available_units(pid)
     if not units:
@@ -803,7 +806,7 @@ def write_evidence(pid, tier, seed, wall, obligations, discharged, results, unit
     cov = dict(
         obligations=obligations,
         discharged=discharged,
-        checker_cmd="verus --edition 2024 build/<unit>.rs --output-json --time-expanded --multiple-errors 20 --error-format=json --rlimit %d   (Verus 0.2026.09.13, z3 back end; one run per unit: %s)" % (RLIMIT, ", ".join(units)),
+        checker_cmd="verus --edition 2024 build/<property>/<unit>.rs --output-json --time-expanded --multiple-errors 20 --error-format=json --rlimit %d   (Verus 0.2026.09.13, z3 back end; one run per unit: %s)" % (RLIMIT, ", ".join(units)),
         trusted_base=sorted(set(trusted)),
         backend="Verus 0.2026.09.13 / z3 (bundled)",
         units=units,
